@@ -23,7 +23,7 @@ PROPS = {
 
 PROPS["C17"] = dict(
     modules=["Hub.Props.C17"],
-    gens=["c17"],
+    gens=["c17", "c17empty"],
     rule="real wrappedSink.processEntities (with the real LogFailingEntityHandler behind a recorder) against a scripted sink: all subsets "
          "of rejected positions for one batch of size <=7 (thorough <=10) x all maxItems in [0,n+1], plus sampled multi-batch runs with "
          "transient call failures and batches up to 200; non-trivial = more than one entity and at least one failure; distinct = distinct input",
@@ -41,7 +41,7 @@ PROPS["C17"] = dict(
 
 PROPS["C11"] = dict(
     modules=["Hub.Props.C11"],
-    gens=["c11"],
+    gens=["c11", "c17empty"],
     rule="random borrow/return sequences (5 job ids, pools 0..2 fullsync / 0..3 incremental) against the real raffle, state compared after "
          "every request; non-trivial = at least two grants and one refusal; distinct = distinct sequences",
     trusted=["goja, cron/jobrunner and goroutine scheduling are outside the model", "panic recovery of cron/manual runs is jobrunner's"],
